@@ -381,6 +381,12 @@ TypedSourceOnce ==
      \A p \in Matches({}, tree) : Mult(Deviations, tree, p) <= 1
 (* the (possibly deviating) matcher implements the documented meaning *)
 MatcherAgrees == (Live /\ Deviations \cap {"RecursiveWholeDir", "DeleteDateIsModtime", "ContentClaimTimeIgnored", "DirChildrenCappedByLimit"} # {}) => Matches(Deviations, tree) = Matches({}, tree)
+(* the same invariants, printing the refuting (tree, sort) as JSON so that leg G can replay a model
+   counterexample on the real code *)
+Cex(P) == P \/ (PrintT(<<"CEX", ToJson([tree |-> tree, sort |-> sort, limit |-> 0])>>) /\ FALSE)
+SourceCoversMatchesX == Cex(SourceCoversMatches)
+TypedSourceOnceX == Cex(TypedSourceOnce)
+MatcherAgreesX == Cex(MatcherAgrees)
 (* Order / Limit produce a result the validation relation accepts, and it is the only one when keys are unique *)
 OrderLimitValid ==
   (Live /\ Len(tree) <= 3) =>
